@@ -67,6 +67,45 @@ def h_roundtrip_bytes(ctx, cmd):
         ctx.check("marshall(unmarshall(b))[%d] == b[%d]" % (i, i), raw[i] == ctx.oracle(b[i]))
 
 
+def _ata_lba(v, n):
+    """SAT-3: ATA PASS-THROUGH(12) bytes 5..7 = LBA(7:0), (15:8), (23:16); (16): bytes 7..12 = (31:24), (7:0),
+    (39:32), (15:8), (47:40), (23:16); the value below is those bytes read big-endian"""
+    b = lambda i: (v >> (8 * i)) & 0xFF
+    order = [0, 1, 2] if n == 12 else [3, 0, 4, 1, 5, 2]
+    out = 0
+    for i in order:
+        out = (out << 8) | b(i)
+    return out
+
+
+def h_roundtrip_built(ctx, cmd):
+    """a CDB built by the command's constructor (all arguments symbolic) decodes, with the class's own decoder, to
+    the values it was built from; the library's name for a field is found through the bits it occupies"""
+    spec = L.CDB[cmd]
+    st = "spc" if "spc" in spec["sets"] else list(spec["sets"])[0]
+    opcode = K.lookup_opcode(spec, st)
+    cls = K.get_class(spec)
+    args = K.sym_args(ctx, spec)
+    extra = K.extra_args(ctx, spec, args)
+    if cmd.startswith("ATA"):
+        ctx.assume(extra["blocksize"] >= 1)
+    c = K.build(spec, opcode, args, extra)
+    dec = cls.unmarshall_cdb(c.cdb)
+    have = {name: K.lib_bits(e[0], e[1]) for name, e in cls._cdb_bits.items() if len(e) == 2}
+    for name in args:
+        want = K.spec_bits(spec["fields"][name])
+        lib = [k for k, v in have.items() if v == want]
+        if len(lib) != 1:
+            continue    # reported by the layout obligation
+        v = args[name]
+        if name == "lba" and hasattr(cls, "scsi_to_ata_lba_convert"):
+            # the ATA pass-through classes document their 'lba' CDB field as the ATA register order of the LBA and
+            # publish the conversion; the decoded field is that documented quantity
+            v = _ata_lba(v, spec["length"])
+        ctx.check("built from %s=v, decodes to '%s'=v" % (name, lib[0]), dec[lib[0]] == ctx.oracle(v))
+    ctx.check("decoded opcode is the command's", dec["opcode"] == ctx.oracle(spec["opcode"]))
+
+
 def h_layout(ctx, cmd):
     """structural: each library field occupies exactly the bits of one field of the standard
     (service action and parameter-list-length fields included), nothing overlaps, nothing is missing"""
@@ -99,6 +138,7 @@ def obligations(tier):
     for cmd in L.CDB:
         obs.append(Ob("dict-roundtrip/%s" % cmd, MOD, "h_roundtrip_dict", {"cmd": cmd}))
         obs.append(Ob("bytes-roundtrip/%s" % cmd, MOD, "h_roundtrip_bytes", {"cmd": cmd}))
+        obs.append(Ob("built-roundtrip/%s" % cmd, MOD, "h_roundtrip_built", {"cmd": cmd}))
         obs.append(Ob("layout/%s" % cmd, MOD, "h_layout", {"cmd": cmd}, canary=False))
     return obs
 
